@@ -17,6 +17,9 @@ CHECKS = {
  'C03': ('exploration', 'seeded deterministic simulation: delivery-schedule search with differential oracle + over-read bound from a reference matcher',
          'sampled scenarios x inputs; per input the refill boundary is swept over every offset; a clean batch is evidence, not proof',
          'trusts: clang/ASan, glibc stdio for the stdio deliveries, the reference matcher (only for the over-read bound). The read(2) path (-Cr) is not driven.', '6 C03'),
+ 'C04': ('exploration', 'seeded deterministic simulation: relabelling-twin differential (NUL or a high byte swapped with an ordinary byte) under identical plans, plus -7/-8 differential',
+         'sampled scenario pairs x plans incl. the refill-boundary sweep over every offset; logs compared modulo the byte permutation',
+         'trusts: that a byte permutation fixing newline preserves the meaning of a rule set (true for the generated pattern language); read-request counts are not compared (C03)', '6 C04'),
  'C05': ('exploration', 'seeded deterministic simulation: API-history search checked against an executable reference model (integer + list)',
          'sampled histories of begin/push/pop/top mixed with restart, buffer switches, yywrap and EOF; model compared after every event',
          'trusts: the harness op interpreter; rule activation per condition (part B of the design) is not yet claimed', '6 C05'),
